@@ -184,6 +184,8 @@ MUTANTS += [
     dict(id="c03-bfloat16-not-float", property="C03", edits=[(A, "+ [_bfloat16, _float16, _float32, _float64]", "+ [_float16, _float32, _float64]")]),
     # (reading tf's dtype.name instead of as_numpy_dtype.__name__ is an *equivalent* mutant on every
     #  instantiable TF dtype - 'bool' and 'bool_' are both in the Bool table - so it is not listed)
+    # (... which turned out NOT to be equivalent: TF1 reference variables have dtypes named float32_ref, found by a round-6 seed)
+    dict(id="c03-tf-dtype-name", property="C03", edits=[(A, "dtype = obj.dtype.as_numpy_dtype.__name__", "dtype = obj.dtype.name")]),
     dict(id="c03-tf-str-dtype", property="C03", edits=[(A, "dtype = obj.dtype.as_numpy_dtype.__name__", "dtype = obj.dtype.as_numpy_dtype.__name__.replace('16', '32')")]),
     dict(id="c03-startswith", property="C03", edits=[(A, "in_dtypes = dtype == cls_dtype", "in_dtypes = dtype.startswith(cls_dtype)")]),
     dict(id="c03-regex-search", property="C03", edits=[(A, "in_dtypes = bool(cls_dtype.match(dtype))", "in_dtypes = bool(cls_dtype.search(dtype))")]),
